@@ -347,6 +347,147 @@ BuiltinMixin.SPEC_FUNCS.update({"flat": sf_flat, "Dom": sf_Dom, "Space": sf_Spac
                                 "Valid": sf_Valid, "nobj": sf_nobj, "Fk": sf_Fk, "weights_are": sf_weights_are})
 
 
+# ---- structure of a task's variables (C14): sizes, children, flattening ---------------------------------------------------------
+def _vsize(v_z):
+    return _uf("vsize", z3.IntSort(), z3.IntSort())(v_z)
+
+
+def _kids(v_z):
+    return _uf("kids", z3.IntSort(), z3.BoolSort())(v_z)
+
+
+def _child(v_z, r):
+    return _uf("child", z3.IntSort(), z3.IntSort(), z3.IntSort())(v_z, r)
+
+
+def sf_vsize(eng, st, args, kw, node):
+    return V(("int",), _vsize(args[0].z))
+
+
+def sf_kids(eng, st, args, kw, node):
+    return _b(_kids(args[0].z))
+
+
+def sf_child(eng, st, args, kw, node):
+    return V(("obj", "Variable"), _child(args[0].z, args[1].z))
+
+
+def _v0(task_z):
+    return _uf("V0", z3.IntSort(), z3.ArraySort(z3.IntSort(), z3.IntSort()))(task_z)
+
+
+def _nv0(task_z):
+    return _uf("nV0", z3.IntSort(), z3.IntSort())(task_z)
+
+
+def _vs_arr(eng, st, task_z):
+    """VS(task)[j] = vsize(V0(task)[j]) (canonical array)"""
+    return eng.keys_array(st, "VS:" + task_z.sexpr(), lambda x: _vsize(z3.Select(_v0(task_z), x)), z3.IntSort())
+
+
+def sf_off(eng, st, args, kw, node):
+    """off(task, j): the first coordinate of the j-th declared variable = sum of the sizes of the variables before it"""
+    f, _ = eng.fsum_fn()
+    eng.fsum_axioms(st)
+    return V(("int",), f(_vs_arr(eng, st, args[0].z), args[1].z))
+
+
+def sf_sumsizes(eng, st, args, kw, node):
+    """sumsizes(vs): sum of vsize(v) over a list of variables"""
+    f, _ = eng.fsum_fn()
+    eng.fsum_axioms(st)
+    el = st.seq_elems(args[0])
+    K = eng.keys_array(st, "sumsizes:" + el.sexpr(), lambda x: _vsize(z3.Select(el, x)), z3.IntSort())
+    return V(("int",), f(K, st.seq_len(args[0])))
+
+
+BuiltinMixin.SPEC_FUNCS.update({"sumsizes": sf_sumsizes})
+
+
+def sf_has_negative(eng, st, args, kw, node):
+    """has_negative(ws): some element of the float list is < 0 (a function of the elements: opaque, unfolded nowhere)"""
+    l = args[0]
+    return _b(_uf("has_negative", st.seq_elems(l).sort(), z3.IntSort(), z3.BoolSort())(st.seq_elems(l), st.seq_len(l)))
+
+
+BuiltinMixin.SPEC_FUNCS.update({"has_negative": sf_has_negative})
+
+
+def sf_task_wf(eng, st, args, kw, node):
+    """Object invariant of a Task: `variables` is the list the task was built with (ghost V0, nV0), every variable is well
+    formed (size >= 1; a leaf is its own only coordinate; children are leaves), `space_dimension` is the sum of the sizes,
+    and flat(task, i) is the child that owns coordinate i."""
+    task = args[0]
+    f, seg = eng.fsum_fn()
+    eng.fsum_axioms(st)
+    vs = st.read_field(task, "variables")
+    n = st.seq_len(vs)
+    el = st.seq_elems(vs)
+    v0, nv0 = _v0(task.z), _nv0(task.z)
+    VS = _vs_arr(eng, st, task.z)
+    j = z3.Int(eng.ctx.fresh_name("tw"))
+    r = z3.Int(eng.ctx.fresh_name("tr"))
+    i = z3.Int(eng.ctx.fresh_name("ti"))
+    dim = st.read_field(task, "space_dimension").z
+    sg = seg(VS, nv0, i)
+    facts = [n == nv0, nv0 >= 0,
+             qforall([j], z3.Implies(z3.And(j >= 0, j < n), el[j] == v0[j]), patterns=[el[j]]),
+             qforall([j], z3.Implies(z3.And(j >= 0, j < nv0), z3.And(_vsize(v0[j]) >= 1, var_wf(eng, st, v0[j]))), patterns=[v0[j]]),
+             dim == f(VS, nv0),
+             qforall([i], z3.Implies(z3.And(i >= 0, i < f(VS, nv0)), flat_var(task.z, i) == _child(v0[sg], i - f(VS, sg))),
+                     patterns=[flat_var(task.z, i)])]
+    return _b(z3.And(*facts))
+
+
+def var_wf(eng, st, v_z):
+    """a leaf has one coordinate, itself; a composite has vsize children, all leaves, held by `_children`"""
+    r = z3.Int(eng.ctx.fresh_name("vr"))
+    ch = st._read_field_at(v_z, "_children", st.field_type("_children"))
+    chel = st.seq_elems(ch)
+    leaf = z3.And(_vsize(v_z) == 1, _child(v_z, z3.IntVal(0)) == v_z)
+    comp = z3.And(st.seq_len(ch) == _vsize(v_z),
+                  qforall([r], z3.Implies(z3.And(r >= 0, r < _vsize(v_z)),
+                                          z3.And(chel[r] == _child(v_z, r), z3.Not(_kids(_child(v_z, r))), _vsize(_child(v_z, r)) == 1)),
+                          patterns=[chel[r]]))
+    return z3.If(_kids(v_z), comp, leaf)
+
+
+def _cb(which, v_z, r):
+    return _uf("cbound_" + which, z3.IntSort(), z3.IntSort(), z3.IntSort())(v_z, r)
+
+
+def sf_cbound_lo(eng, st, args, kw, node):
+    """cbound_lo(v, r): the lower bound the declared variable v gives to its r-th coordinate"""
+    return V(("val",), _cb("lo", args[0].z, args[1].z))
+
+
+def sf_cbound_hi(eng, st, args, kw, node):
+    return V(("val",), _cb("hi", args[0].z, args[1].z))
+
+
+def _task_bound(which):
+    def sf(eng, st, args, kw, node):
+        """blo / bhi(task, i): the bound of coordinate i = the bound its declared variable gives to that coordinate"""
+        task, i = args
+        f, seg = eng.fsum_fn()
+        eng.fsum_axioms(st)
+        VS = _vs_arr(eng, st, task.z)
+        sg = seg(VS, _nv0(task.z), i.z)
+        return V(("val",), _cb(which, z3.Select(_v0(task.z), sg), i.z - f(VS, sg)))
+    return sf
+
+
+BuiltinMixin.SPEC_FUNCS.update({"cbound_lo": sf_cbound_lo, "cbound_hi": sf_cbound_hi, "blo": _task_bound("lo"), "bhi": _task_bound("hi")})
+
+
+def sf_var_wf(eng, st, args, kw, node):
+    return _b(var_wf(eng, st, args[0].z))
+
+
+BuiltinMixin.SPEC_FUNCS.update({"vsize": sf_vsize, "kids": sf_kids, "child": sf_child, "off": sf_off, "task_wf": sf_task_wf,
+                                "var_wf": sf_var_wf})
+
+
 def sf_is_scalar_objective(eng, st, args, kw, node):
     return _b(_uf("scalar_objective", z3.IntSort(), z3.BoolSort())(args[0].z))
 
